@@ -17,6 +17,7 @@ import (
 	"os"
 	"os/exec"
 	"path/filepath"
+	"runtime/debug"
 	"strings"
 
 	"github.com/ethereum/go-ethereum/common"
@@ -103,7 +104,7 @@ func genPlan(r *vrt.Run, hi int) Plan {
 		case k < 8 && at > 3:
 			p.Steps = append(p.Steps, Step{Kind: "freeze", A: 1 + rng.Intn(at-1)})
 		default:
-			if at > 2 {
+			if at > 2 && os.Getenv("C39_NO_SETHEAD") == "" {
 				t := rng.Intn(at)
 				p.Steps = append(p.Steps, Step{Kind: "sethead", A: t})
 				at = t
@@ -330,9 +331,26 @@ func checkState(dir string) (v Verdict) {
 	}
 	defer func() {
 		if pv := recover(); pv != nil {
-			v = bad("reopen-panic", "panic: %v", pv)
+			st := string(debug.Stack())
+			v = bad("reopen-panic:"+vrt.PanicSite(st[strings.Index(st, "panic("):]), "panic: %v\n%s", pv, st)
 		}
 	}()
+	// (shared with C25) no tail truncation is requested in these scenarios: a non-zero tail of
+	// the block-data group means the freezer repair fast-forwarded body/receipt tables that a
+	// crash had left empty. Checked on the bare database first, because NewBlockChain cannot
+	// cope with the hidden bodies (it resets the chain and may panic).
+	{
+		mem2, _, _ := kvrec.Load(e.Oplog, w.KVN) // closing the probe database closes its key-value store
+		pre, err := rawdb.Open(mem2, rawdb.OpenOptions{Ancient: filepath.Join(dir, "root", "ancient")})
+		if err != nil {
+			return bad("reopen-error", "rawdb.Open failed: %v", err)
+		}
+		tail, _ := pre.Tail(rawdb.ChainFreezerBlockDataGroup)
+		pre.Close()
+		if tail > 0 {
+			return bad("blockdata-tail-advanced-by-repair", "bodies/receipts below %d hidden by the freezer repair", tail)
+		}
+	}
 	db, bc, err := openChain(mem, filepath.Join(dir, "root"), p, m)
 	if err != nil {
 		return bad("reopen-error", "NewBlockChain/rawdb.Open failed: %v", err)
@@ -380,6 +398,9 @@ func checkState(dir string) (v Verdict) {
 	}
 	// I2 head state available and correct
 	if !bc.HasState(head.Root) {
+		if v.Head == 0 {
+			return bad("I2:genesis-state-missing", "state of the genesis block unavailable after a crash during chain initialisation")
+		}
 		return bad("I2:head-state-missing", "state of head block %d unavailable", v.Head)
 	}
 	st, err := bc.StateAt(head)
@@ -408,9 +429,15 @@ func checkState(dir string) (v Verdict) {
 			}
 		}
 	}
-	// acknowledged blocks not lost
-	if v.Head < e.AckHead {
-		return bad("acked-blocks-lost", "head %d after recovery below the head %d acknowledged by a clean stop", v.Head, e.AckHead)
+	// acknowledged blocks not lost: the head may legitimately be rewound to an earlier block
+	// whose state is available (the property asks for "no loss of blocks", not for the head to
+	// stay), so what is demanded is that the block data of every canonical block up to the
+	// head acknowledged by the last clean stop is still there and still canonical-linked.
+	for nn := uint64(1); nn <= e.AckHead; nn++ {
+		cb := m.Canon[nn]
+		if rawdb.ReadHeader(db, cb.Hash(), nn) == nil || rawdb.ReadBody(db, cb.Hash(), nn) == nil {
+			return bad("acked-blocks-lost", "block %d (acknowledged by a clean stop at head %d) is gone after recovery (head %d)", nn, e.AckHead, v.Head)
+		}
 	}
 	// re-import reaches the head of a node that never crashed
 	final := m.Canon[len(m.Canon)-1]
